@@ -172,3 +172,10 @@ def register(PROPS, CLASSIFIERS, REPLAY_RUNNERS):
 
     # ------------------------------------------------------------------ C13: delayed self-sends (monitor only; no timers in the engine model)
     PROPS["C13"].setdefault("q_checks", []).append(_lazy("multichecks", "c13_delayed_self_sends"))
+
+    # ------------------------------------------------------------------ C15: reacting machines
+    # the life of a send id exercised THROUGH deliveries (re-arm from inside the delivery it caused, ...); same monitor
+    # (c15_impl.post_op), tied to the actor model with every reaction as an explicit command (c15react.py)
+    PROPS["C15"]["q_checks"].append(_lazy("c15react", "c15_reacting"))
+    # `./check C15 quick --replay <file>`: C15 cases are actor-tree op sequences, not engine cases - c15.main runs them
+    PROPS["C15"]["replayer"] = lambda prop, path: _call("c15", "main")(["c15", "--replay", path])
